@@ -2,6 +2,8 @@ package main
 
 import (
 	"fmt"
+	"go/token"
+	"strconv"
 	"strings"
 
 	"golang.org/x/tools/go/ssa"
@@ -86,12 +88,12 @@ func recomputeAfterMutation(r *Run, rule string, need []string) {
 	ord := Ord{}
 	n := 0
 	for _, fn := range tmiFuncs(w) {
-		if fn.Name() == "copySnapshotView" {
-			continue // writes into the caller's snapshot copy, not kernel state
-		}
 		a := w.A(fn)
 		a.Instrs(func(in ssa.Instruction) {
 			up, ok := in.(*ssa.MapUpdate)
+			if ok && writesCallerOwnedView(w, fn, up.Map) {
+				return // fills the caller's snapshot copy, not kernel state
+			}
 			if !ok {
 				return
 			}
@@ -160,7 +162,7 @@ func availablePowerCoherence(r *Run, rule string) {
 			r.Fail(rule, name, "", "function not found")
 			continue
 		}
-		a := w.A(fn)
+		a := w.AU(fn)
 		// validator set source per view
 		vsSrc := map[string]string{}
 		apSrc := map[string]string{}
@@ -215,7 +217,7 @@ func availablePowerCoherence(r *Run, rule string) {
 	}
 	// start-up loader: available power summed over the very set stored in the view
 	if fn := w.Fn("tmi.Kernel.loadInitialView"); fn != nil {
-		a := w.A(fn)
+		a := w.AU(fn)
 		calls := a.CallsTo("tmconsensus.VoteSummary.SetAvailablePower")
 		ok := len(calls) == 1
 		det := ""
@@ -228,7 +230,7 @@ func availablePowerCoherence(r *Run, rule string) {
 	}
 	// the sum itself
 	if fn := w.Fn("tmconsensus.VoteSummary.SetAvailablePower"); fn != nil {
-		a := w.A(fn)
+		a := w.AU(fn)
 		var stores []string
 		a.Instrs(func(in ssa.Instruction) {
 			if st, ok := in.(*ssa.Store); ok && a.sh.Of(st.Addr).String() == "p0.AvailablePower" {
@@ -238,4 +240,65 @@ func availablePowerCoherence(r *Run, rule string) {
 		ok := len(stores) == 2 && stores[0] == "0" && stores[1] == "(p0.AvailablePower + p1[#i].Power)"
 		r.Check(ok, rule, "tmconsensus.VoteSummary.SetAvailablePower", w.Pos(fn.Pos()), "available power is reset and then the plain sum of the validators' powers: "+strings.Join(stores, " ; "))
 	}
+}
+
+// writesCallerOwnedView reports whether the view whose field addr/value v belongs to is
+// not kernel state but a round view handed in by the caller for filling (the
+// snapshot copy made for view-lookup requests): its root is a *VersionedRoundView
+// parameter, and no caller passes a pointer into kState (or a FindView result)
+// for it. Found by role, so renaming the copying function or turning it from a
+// method into a function does not matter.
+func writesCallerOwnedView(w *World, fn *ssa.Function, v ssa.Value) bool {
+	root := v
+	for {
+		switch x := root.(type) {
+		case *ssa.FieldAddr:
+			root = x.X
+			continue
+		case *ssa.IndexAddr:
+			root = x.X
+			continue
+		case *ssa.UnOp:
+			if x.Op == token.MUL {
+				root = x.X
+				continue
+			}
+		}
+		break
+	}
+	par, ok := root.(*ssa.Parameter)
+	if !ok || TypeName(par.Type()) != "tmconsensus.VersionedRoundView" {
+		return false
+	}
+	idx := -1
+	for i, p := range fn.Params {
+		if p == par {
+			idx = i
+		}
+	}
+	if idx < 0 {
+		return false
+	}
+	ncall := 0
+	for _, c := range w.CallersOf(w.ProdFuncs(), FuncName(fn)) {
+		ncall++
+		cc := callCommon(c.Instr)
+		if idx >= len(cc.Args) {
+			return false
+		}
+		s := w.A(c.Fn).sh.Of(cc.Args[idx]).String()
+		kernelState := false
+		for _, p := range c.Fn.Params {
+			if TypeName(p.Type()) == "tmi.kState" && strings.Contains(s, "p"+strconv.Itoa(paramIndex(c.Fn, p))+".") && strings.HasPrefix(s, "(&p") {
+				kernelState = true
+			}
+		}
+		if strings.Contains(s, "kState.FindView(") && strings.HasSuffix(s, "#0") {
+			kernelState = true
+		}
+		if kernelState {
+			return false
+		}
+	}
+	return ncall > 0
 }
